@@ -15,7 +15,7 @@ pub struct C10;
 
 pub fn decode(bytes: &[u8]) -> (u8, Module) {
     let mut c = Choices::new(bytes);
-    let source = c.weighted(&[4, 3, 3]) as u8;
+    let source = c.weighted(&[4, 3, 3, 2]) as u8;
     let m = match source {
         0 => {
             let mut cfg = GenCfg::default();
@@ -31,6 +31,12 @@ pub fn decode(bytes: &[u8]) -> (u8, Module) {
             lower(&p)
         }
         1 => lower(&gen_program(&mut c, &crate::props::c06::cfg())),
+        3 => {
+            // modules built around the compiler's limits (locals up to and beyond 255 followed by
+            // constructs that need hidden local slots, loops nested deep, many globals, ...):
+            // whatever still compiles there must be well-formed too
+            crate::props::c04::compile_stress(&mut c).1
+        }
         _ => {
             let mut g = CardGen::new();
             g.max_depth = 3;
@@ -45,7 +51,7 @@ impl Property for C10 {
         "C10"
     }
     fn rule(&self) -> &'static str {
-        "case = a Module from one of three generators (well-scoped programs, closure-heavy programs, arbitrary card trees incl. shapes the VM would mis-run); every module that compiles is decoded front to back by an independent decoder with its own opcode/operand-width table (cross-checked against the crate's table): known opcodes, complete operands, Exit last, jump/label/trace targets on instruction starts, function/closure handles labelled with consistent arity, string operands complete UTF-8 and readable through the VM's window, local/upvalue/global indices in range, ids<->names bijective, every failing instruction traced, disassembler walk identical. non-trivial = compiled program with >=1 jump and >=1 of {closure, for-each, string operand, >=2 function pointers}; distinct by hash of the bytecode"
+        "case = a Module from one of four generators (well-scoped programs, closure-heavy programs, arbitrary card trees incl. shapes the VM would mis-run, modules built around the compiler's limits: up to 257 locals followed by constructs needing hidden local slots, loops nested up to 69 deep, many globals / functions / submodules); every module that compiles is decoded front to back by an independent decoder with its own opcode/operand-width table (cross-checked against the crate's table): known opcodes, complete operands, Exit last, jump/label/trace targets on instruction starts, function/closure handles labelled with consistent arity, string operands complete UTF-8 and readable through the VM's window, local/upvalue/global indices in range, ids<->names bijective, every failing instruction traced, disassembler walk identical. non-trivial = compiled program with >=1 jump and >=1 of {closure, for-each, string operand, >=2 function pointers}; distinct by hash of the bytecode"
     }
     fn assumptions(&self) -> Vec<String> {
         vec![
